@@ -12,7 +12,8 @@ MANIFEST = dict(
           "fragment type); +, += add and n* scales counts, mass and charge for every rational n (including 0, 1 and "
           "the single-fragment shortcut); mass and charge computed over .atoms equal the structural sums; mass "
           "fractions are count*mass/total and sum to 1 when the mass is non-zero; ions weigh their atom less "
-          "charge electron masses; on the object machine (heap of Formula objects + variables) every operation that "
+          "charge electron masses, the constant regenerated from constants.py being the recommended value of the "
+          "electron mass; on the object machine (heap of Formula objects + variables) every operation that "
           "returns a new formula leaves all existing objects unchanged, += changes only its target, and every "
           "program keeps the machine well-formed (induction over the operation list).  Tie: random programs over "
           "formula(atom|dict|nested|Formula), +, n*, +=, aliasing; after every step every live variable's structure, "
